@@ -23,7 +23,7 @@
      virtualQubit: <handle t>.simNode => (SIM t)
      virtualQubit: <handle t>.simQubit => (Q t) at (SIM t)
      virtualQubit: <handle t>.virtNode => SELF
-     virtualQubit: curr_sim_node => CUR
+     virtualQubit: curr_sim_node (assigned from self.simNode) => CUR
      virtualQubit: locked_node (assigned from _lock_simulating_node(…)) => CUR
      virtualQubit: node => ALL
    flags (method: local variable whose None-ness is tracked => flag number):
